@@ -202,6 +202,13 @@ func (s *Sim) Violate(prop, class, format string, a ...any) {
 	s.Logf("VIOLATION %s %s %s", prop, class, d)
 }
 
+// Arm arms an exploration yield site (goroutines of the run may already be calling Yield).
+func (s *Sim) Arm(site string) {
+	s.mu.Lock()
+	s.Armed[site] = true
+	s.mu.Unlock()
+}
+
 // Yield is installed as verifhook.YieldFunc. Only armed sites park.
 func (s *Sim) Yield(site string, id uint64) {
 	s.mu.Lock()
